@@ -42,7 +42,8 @@ func Ob_C01C03C20_Hook_GlobalResidue() {
 	delAddr, e1 := sdk.AccAddressFromBech32(del)
 	valAddr, e2 := sdk.ValAddressFromBech32(val)
 	sym.Assume(e1 == nil && e2 == nil)
-	w.Staking.ValDels[val] = []string{del}
+	w.Staking.DeclareDelegation(del, val)
+	w.Staking.DeclareValidator(val)
 	n0, isNode := w.HookNode.GetNode(w.Ctx, del)
 	sym.Assume(isNode && n0.Role <= 1)
 	hooks := w.HookNode.Hooks()
@@ -71,7 +72,8 @@ func Ob_C03_Hook_PairResetsGlobal() {
 	delAddr, e1 := sdk.AccAddressFromBech32(del)
 	valAddr, e2 := sdk.ValAddressFromBech32(val)
 	sym.Assume(e1 == nil && e2 == nil)
-	w.Staking.ValDels[val] = []string{del}
+	w.Staking.DeclareDelegation(del, val)
+	w.Staking.DeclareValidator(val)
 	d := w.Staking.Delegation(w.Ctx, delAddr, valAddr)
 	sym.Assume(d != nil)
 	hooks := w.HookNode.Hooks()
